@@ -354,6 +354,15 @@ def check_wave(case, rec):
         grid = np.linspace(0.0, kmax, 20001)
         with quiet():
             cdf = _radial_cdf(model, dim, grid)
+            if not hankel:
+                # the radial pdf the sampler is given is the surface factor times the spectral density (deterministic part of the law)
+                gsel = grid[1::2500]
+                pl = np.asarray(model.spectral_rad_pdf(gsel), dtype=float)
+                po = {1: 2.0 * np.ones_like(gsel), 2: 2 * math.pi * gsel, 3: 4 * math.pi * gsel**2}[dim] * np.abs(np.asarray(model.spectral_density(gsel), dtype=float))
+                okp = np.isfinite(po)
+                require(bool(np.allclose(pl[okp], po[okp], rtol=1e-9, atol=1e-300)),
+                        f"spectral_rad_pdf {pl[okp][:4].tolist()} is not the surface factor of dimension {dim} times the spectral density {po[okp][:4].tolist()}",
+                        dict(tags, kind="rad_pdf_factor"))
         tail = 1.0 - cdf[-1]
         if cdf[-1] > 0.5:
             emp = np.searchsorted(np.sort(rad), grid, side="right") / M
